@@ -347,9 +347,12 @@ class Executor(ExecResolve):
 
     def symbolic_for(self, stmt, st, it):
         w = self.w
-        ordinal = self.loop_ordinal
-        self.loop_ordinal += 1
         top = self.depth == 0
+        if top and id(stmt) in self.loop_ids:
+            ordinal = self.loop_ids[id(stmt)]       # syntactic ordinal (source order), the same on every path
+        else:
+            ordinal = self.loop_ordinal
+            self.loop_ordinal += 1
         invs = None
         c = self.contract
         if top and c is not None:
@@ -374,6 +377,8 @@ class Executor(ExecResolve):
             self.oblige("inv-init", st, t, f"loop {ordinal} invariant {k} on entry: {inv}", name=f"{label}.inv{k}.init")
         # 2. discover what the body modifies
         names = sorted(self.assigned_names(stmt.body) | self.target_names(stmt.target) | set(ghosts))
+        stored = {n.id for node in stmt.body for n in ast.walk(node) if isinstance(n, ast.Name) and isinstance(n.ctx, ast.Store)} \
+            | self.target_names(stmt.target) | set(ghosts)
         written, inited = self.discover_writes(stmt, st, it)
         # 3. arbitrary iteration
         def havocked(base_state, tag):
@@ -384,6 +389,9 @@ class Executor(ExecResolve):
             s.assume(s.clock0 >= base_state.clock)
             for nme in names:
                 if nme in s.env:
+                    cur = s.env[nme]
+                    if nme not in stored and isinstance(cur, V) and cur.kind[0] == "ref":
+                        continue    # x.add(..) / x.update(..) on an OBJECT is a method call (its effects come from its contract), not a rebinding
                     hv = self.havoc_value(s.env[nme], f"{nme}@{label}")
                     if hv is not None:
                         s.env[nme] = hv
